@@ -370,7 +370,56 @@ fn edge_options(n: usize) -> Vec<Vec<usize>> {
     v
 }
 
+/// Two tracked objects of different types at one address: a wrapper whose only non-zero-sized field is itself tracked
+/// (same address, same size, same alignment — only the type tells them apart).  Both are distinct objects: each first
+/// offer writes `new` + body, each later offer its own number.
+fn same_address_different_types(acc: &mut Acc) {
+    struct Inner(u32);
+    struct Wrapper {
+        inner: Inner,
+        _marker: std::marker::PhantomData<u8>,
+    }
+    let w = Wrapper { inner: Inner(7), _marker: std::marker::PhantomData };
+    acc.case(Some(0x5a3e));
+    let (r, _) = monitored(None, || {
+        let mut sc = SerializationContext::new(Vec::new());
+        // offers: wrapper (new, 1), its inner (new, 2), wrapper again (1), inner again (2)
+        let mut marks = Vec::new();
+        for k in 0..2 {
+            let new_w = sc.store_ref_or_object(&w).map_err(|e| classify(&e))?;
+            if new_w {
+                sc.write_u8(0xAA);
+            }
+            let new_i = sc.store_ref_or_object(&w.inner).map_err(|e| classify(&e))?;
+            if new_i {
+                sc.write_u8(w.inner.0 as u8);
+            }
+            marks.push((k, new_w, new_i));
+        }
+        Ok((sc.into_output(), marks))
+    });
+    let want: Vec<u8> = [&vu_bytes(0)[..], &[0xAA], &vu_bytes(0)[..], &[7], &vu_bytes(1)[..], &vu_bytes(2)[..]].concat();
+    match r {
+        Call::Ok((bytes, marks)) if bytes == want && marks == vec![(0, true, true), (1, false, false)] => acc.count("same_address_objects_of_different_types_kept_apart"),
+        other => acc.violation(
+            "C10|same_address_different_types".to_string(),
+            J::obj()
+                .with("check", J::s("C10"))
+                .with("mode", J::s("content"))
+                .with("what", J::s("a wrapper and its only field, both offered to the reference table"))
+                .with("expected", J::s(hex(&want)))
+                .with("got", J::s(match &other {
+                    Call::Ok((b, m)) => format!("{} offers {:?}", hex(b), m),
+                    o => o.class(),
+                })),
+        ),
+    }
+}
+
 pub fn c10(ctx: &mut Ctx, acc: &mut Acc) -> i32 {
+    if ctx.shard == 0 {
+        same_address_different_types(acc);
+    }
     // exhaustive: all rooted graphs with <= N nodes and out-degree <= 2 (unreachable parts do not matter and are skipped)
     let max_nodes: usize = ctx.extra.get("max_nodes").and_then(|v| v.parse().ok()).unwrap_or(if ctx.thorough() { 4 } else { 3 });
     let mut index: u64 = 0;
